@@ -10,7 +10,7 @@ Import ListNotations.
 Open Scope Z_scope.
 
 (* NWild true is the wildcard written dot-star, NWild false the one written as a bracketed star *)
-Inductive nfrag : Set := NChild (k : bytes) | NNth (i : Z) | NWild (star : bool) | NDescent | NUnion (ms : list (bytes + Z)).
+Inductive nfrag : Set := NChild (k : bytes) | NNth (i : Z) | NWild (star : bool) | NDescent | NUnion (ms : list (bytes + Z)) | NSlice (l : list Z).
 
 (* ---- printer *)
 Definition tok_byte (b : byte) : bool := negb (beqb (jp_tokenMap b) x2e).
@@ -29,8 +29,21 @@ Fixpoint print_members (ms : list (bytes + Z)) : bytes :=
   | m :: r => print_member m ++ x2c :: print_members r
   end.
 
+(* maxEnd of jp/get.go (the model of evaluation has the same constant, Jp/Expr.v max_end) *)
+Definition slice_max_end : Z := 2147483647.
+Definition print_start (a : Z) : bytes := if a =? 0 then [] else format_int a.
+Definition print_end (b : Z) : bytes := if b =? slice_max_end then [] else format_int b.
+Definition print_slice (l : list Z) : bytes :=
+  match l with
+  | [] => [x3a]
+  | [a] => print_start a ++ [x3a]
+  | [a; b] => print_start a ++ x3a :: print_end b
+  | a :: b :: c :: _ => print_start a ++ x3a :: print_end b ++ x3a :: format_int c
+  end.
+
 Definition print_frag (f : nfrag) : bytes :=
   match f with
+  | NSlice l => x5b :: print_slice l ++ [x5d]
   | NUnion ms => x5b :: print_members ms ++ [x5d]
   | NChild k => if token_ok k then x2e :: k else x5b :: x27 :: enc_body_u (length k) k ++ [x27; x5d]
   | NNth i => x5b :: format_int i ++ [x5d]
@@ -117,6 +130,46 @@ Fixpoint read_union (fuel : nat) (w : bytes) : option (list (bytes + Z) * bytes)
     end
   end.
 
+(* an integer that must be followed by the closing bracket *)
+Definition read_last_int (d : byte) (r : bytes) : option (Z * bytes) :=
+  match read_int d r with
+  | Some (v, e :: r') => if beqb e x5d then Some (v, r') else None
+  | _ => None
+  end.
+
+(* readSlice(i), entered right after the first colon *)
+Definition read_slice (i : Z) (w : bytes) : option (list Z * bytes) :=
+  match w with
+  | [] => None
+  | b :: r =>
+      if beqb b x5d then Some ([i; slice_max_end], r)
+      else
+        match skip_space w with
+        | [] => None
+        | c :: r1 =>
+            if beqb c x3a then                               (* the end is left out *)
+              match r1 with
+              | [] => None
+              | d :: r2 =>
+                  if beqb d x5d then Some ([i; slice_max_end], r2)
+                  else match read_last_int d r2 with Some (v, k) => Some ([i; slice_max_end; v], k) | None => None end
+              end
+            else
+              match read_int c r1 with
+              | Some (v, e :: r2) =>
+                  if beqb e x3a then
+                    match r2 with
+                    | [] => None
+                    | d :: r3 =>
+                        if beqb d x5d then Some ([i; v], r3)
+                        else match read_last_int d r3 with Some (v2, k) => Some ([i; v; v2], k) | None => None end
+                    end
+                  else if beqb e x5d then Some ([i; v], r2) else None
+              | _ => None
+              end
+        end
+  end.
+
 (* [ld]: the previous fragment was a descent (lastDescent in readExpr) *)
 Fixpoint parse_frags (fuel : nat) (ld : bool) (w : bytes) : option (list nfrag) :=
   match fuel with
@@ -139,7 +192,12 @@ Fixpoint parse_frags (fuel : nat) (ld : bool) (w : bytes) : option (list nfrag) 
         match skip_space r with
         | [] => None
         | q :: r' =>
-            if beqb q x2a then
+            if beqb q x3a then
+              match read_slice 0 r' with
+              | Some (l, r2) => cons_opt (NSlice l) (parse_frags f false r2)
+              | None => None
+              end
+            else if beqb q x2a then
               match skip_space r' with
               | e :: r3 => if beqb e x5d then cons_opt (NWild false) (parse_frags f false r3) else None
               | [] => None
@@ -171,6 +229,11 @@ Fixpoint parse_frags (fuel : nat) (ld : bool) (w : bytes) : option (list nfrag) 
                         | Some (ms, r4) => cons_opt (NUnion (inr v :: ms)) (parse_frags f false r4)
                         | None => None
                         end
+                      else if beqb e x3a then
+                        match read_slice v r3 with
+                        | Some (l, r4) => cons_opt (NSlice l) (parse_frags f false r4)
+                        | None => None
+                        end
                       else None
                   | [] => None
                   end
@@ -196,6 +259,9 @@ Definition norm_frag (f : nfrag) : nfrag :=
   | NUnion [inl s] => NChild (sanitize s)      (* a union of one member reads back as that child / index *)
   | NUnion [inr i] => NNth i
   | NUnion ms => NUnion (map (fun m => match m with inl s => inl (sanitize s) | inr i => inr i end) ms)
+  | NSlice [] => NSlice [0; slice_max_end]           (* the parser always fills in the end *)
+  | NSlice [a] => NSlice [a; slice_max_end]
+  | NSlice (a :: b :: c :: _) => NSlice [a; b; c]    (* only three numbers are printed *)
   | _ => f
   end.
 
@@ -207,6 +273,7 @@ Definition show_frag (f : nfrag) : bytes :=
   | NWild true => [x77; x2a]
   | NWild false => [x77; x23]
   | NDescent => [x64]
+  | NSlice l => x6c :: flat_map (fun i => x2c :: format_int i) l
   | NUnion ms => x75 :: flat_map (fun m => match m with inl s => x2c :: x73 :: Jv.hex_of_bytes s | inr i => x2c :: x69 :: format_int i end) ms
   end.
 Fixpoint show_frags (fs : list nfrag) : bytes :=
